@@ -203,6 +203,8 @@ func main() {
 		cmdCPMGlue()
 	case "memkinds":
 		cmdMemKinds()
+	case "cpmpar":
+		cmdCPMPar()
 	case "par":
 		cmdPar(os.Args[2:])
 	case "ctx":
